@@ -39,24 +39,24 @@ CLAIMED = {
    text="Decides ordering and re-entrancy for all three chains and every composition of stages: the position a continuation uses is bound per continuation and never written once it exists (the shared cursor that made a retrying middleware skip inner stages is repaired and guarded), stage and core receive the continuation's own context and message and their results are returned unchanged, stage k gets the continuation for k+1 with the core on the other edge of position < len(chain), chains start at 0, registration appends in order, and the chain slices are written only while being registered or constructed. User-written stages are outside.",
    ref="§4 C19"),
  "C10": dict(level="other",
-   technique="static analysis: who-may-call and lock-bracket dominance on the exchange path of package kmipclient; teardown-before-error-exit dominance after the request hand-off; per-connection ownership of hand-off channels",
-   text="Decides the structural reasons why a caller can only get its own response, for every interleaving at once: an exchange exists only inside doRountrip between Lock and the deferred Unlock of a mutex every constructor creates afresh; once the request has been handed to the connection every error exit of the exchange is dominated by a teardown (the missing teardown when the context ends between send and recv is repaired and guarded), so no connection with a response still in flight is ever reused; channels are created per connection, the old connection is closed before a new one replaces it, and send/recv refuse a closed connection. Server-side reordering and the end-to-end statement under a real scheduler are not decided.",
+   technique="static analysis: who-may-call and lock-bracket dominance on the exchange path of package kmipclient; teardown-before-error-exit dominance after the request hand-off; per-connection ownership of hand-off channels; must-pass-through (Recv, ok edge of the assertion, store) before the read loop's hand-off",
+   text="Decides the structural reasons why a caller can only get its own response, for every interleaving at once: an exchange exists only inside doRountrip between Lock and the deferred Unlock of a mutex every constructor creates afresh; once the request has been handed to the connection every error exit of the exchange is dominated by a teardown (the missing teardown when the context ends between send and recv is repaired and guarded), so no connection with a response still in flight is ever reused; channels are created per connection, the old connection is closed before a new one replaces it, send/recv refuse a closed connection, and the read loop hands over only the response it has just received (so a server-originated message cannot shift the responses of later calls). Server-side reordering and the end-to-end statement under a real scheduler are not decided.",
    ref="§4 C10"),
  "C11": dict(level="other",
-   technique="static analysis: loop-bound recogniser (constant counter, decrement on the single back edge, guard) and retry-set reachability on doRountrip; the C08 channel-discipline rules instantiated for the client connection; goroutine inventory",
-   text="Decides the bounded-retry and no-panic/no-leak structure of the client for every fault point: at most four transmissions per call (counter 3, decremented on the only back edge, tested before retrying, one hand-off per send), retry reachable only through errors.Is(err, io.EOF/io.ErrClosedPipe) after closing the old connection, no channel closed under a concurrent sender and a buffered reply channel (both defects repaired and guarded), every blocking channel operation releasable by teardown, a closed client failing with an error outside the retry set, and only the two per-connection loops as goroutines. Promptness and recovery against a live server are runtime matters and not decided.",
+   technique="static analysis: loop-bound recogniser (constant counter, decrement on the single back edge, guard) and retry-set reachability on doRountrip; the C08 channel-discipline rules instantiated for the client connection; goroutine inventory; path rule on doRountrip (re-dial or liveness test before the first exchange), error pass-through of Stream.Recv on the Read error edge, never-nil rule for Client.conn",
+   text="Decides the bounded-retry and no-panic/no-leak structure of the client for every fault point: at most four transmissions per call (counter 3, decremented on the only back edge, tested before retrying, one hand-off per send), retry reachable only through errors.Is(err, io.EOF/io.ErrClosedPipe) after closing the old connection, no channel closed under a concurrent sender and a buffered reply channel (both defects repaired and guarded), every blocking channel operation releasable by teardown, a closed client failing with an error outside the retry set, only the two per-connection loops as goroutines, Close marking the connection closed on every path, Stream.Recv handing the transport's end-of-stream error through unchanged to the retry test, a connection torn down by any failure being replaced before the next exchange and Client.conn never being reset to nil (two further defects found this way — no recovery after a connection reset, Close panicking after a failed re-dial — are repaired and guarded). Promptness and recovery against a live server are runtime matters and not decided.",
    ref="§4 C11"),
  "C08": dict(level="other",
-   technique="static analysis: channel-discipline rules over the SSA of package kmipserver (close-by-sole-sender, buffered reply hand-off, select-with-Done release of every blocking operation), deferred-recover dominance around handler invocation, path counting of sends in the connection loop",
-   text="Decides the structural conditions under which no client behaviour or handler outcome can crash, wedge or leak the server: no channel is closed by anyone but its sole sender (the racy close that crashed the process is repaired and guarded), the per-message reply channel is buffered so the write loop cannot be left blocked, every handler invocation is dominated by a deferred recover() that yields a failed item, each path around the connection loop handles one request and sends exactly one response with no goroutine spawned on the way and a single stream writer (order by construction), an undecodable but framed request gets one Invalid Message response without teardown, and every blocking channel operation has a <-ctx.Done() alternative with terminate cancelling first. Deadlock-freedom and liveness under a scheduler are not decided.",
+   technique="static analysis: channel-discipline rules over the SSA of package kmipserver (close-by-sole-sender, buffered reply hand-off, select-with-Done release of every blocking operation), deferred-recover dominance around handler invocation, path counting of sends in the connection loop, nil-return contract between the batch stages through the call graph",
+   text="Decides the structural conditions under which no client behaviour or handler outcome can crash, wedge or leak the server: no channel is closed by anyone but its sole sender (the racy close that crashed the process is repaired and guarded), the per-message reply channel is buffered so the write loop cannot be left blocked, every handler invocation is dominated by a deferred recover() that yields a failed item, each path around the connection loop handles one request and sends exactly one response with no goroutine spawned on the way and a single stream writer (order by construction), an undecodable but framed request gets one Invalid Message response without teardown, every blocking channel operation has a <-ctx.Done() alternative with terminate cancelling first, and a pointer result that its caller dereferences without a nil test on the connection goroutine is never the nil constant in any library callee. Deadlock-freedom and liveness under a scheduler are not decided.",
    ref="§4 C08"),
  "C16": dict(level="other",
    technique="static analysis: call-order and dominance checks on Shutdown/Serve/handleConn, WaitGroup accounting (Add before go, deferred Done first, Wait reachable from the deferred Close), goroutine join inventory",
    text="Decides hook pairing and drain structure for every schedule at once: the terminate hook is deferred exactly once, only on the connect hook's success edge and with its context, after which handlers run synchronously in the same function; every connection goroutine is counted before it starts and un-counted by its first deferred call; Shutdown closes the listener, cancels the receive context, arms a 3 s timer that only cancels, waits, then cancels and returns; the loop waits on the receive context and contexts derive from the root; and every goroutine the package starts is joined on the way (the missing join of the per-connection loops is repaired and guarded). Timing and per-request outcomes under a real scheduler are not decided.",
    ref="§4 C16"),
  "C04": dict(level="other",
-   technique="static analysis: writer/reader lexical agreement rules over the XML/JSON codecs (parse-call base/width dataflow, forbidden Go-quoting in the JSON writer, unit-of-duration and separator/layout sibling checks)",
-   text="Decides the structural part of XML/JSON interchangeability: for every parse call of the text readers, a hexadecimal spelling is read with a parser that covers every bit pattern the writers can emit for that width, a 0x prefix is followed by a base-16 parse, durations are seconds times time.Second on every return, mask separators and date layouts written are the ones read, enum/mask lookups default the tag identically on both sides, and the JSON writer never uses Go-syntax quoting (strings go through encoding/json; raw names are registry names proven safe by C17.N3). Four defects found this way are repaired and guarded. Byte-identity of the binary re-encoding and reproduction of foreign XML need execution and are not claimed.",
+   technique="static analysis: writer/reader lexical agreement rules over the XML/JSON codecs (parse-call base/width dataflow, forbidden Go-quoting in the JSON writer, unit-of-duration and separator/layout sibling checks, non-nil origin analysis of decoded byte strings, use of the sign pad in every big-integer writer)",
+   text="Decides the structural part of XML/JSON interchangeability: for every parse call of the text readers, a hexadecimal spelling is read with a parser that covers every bit pattern the writers can emit for that width, a 0x prefix is followed by a base-16 parse, durations are seconds times time.Second on every return, mask separators and date layouts written are the ones read, enum/mask lookups default the tag identically on both sides, and the JSON writer never uses Go-syntax quoting (strings go through encoding/json; raw names are registry names proven safe by C17.N3). Every writer that renders a big integer consumes the sign pad byte returned by bigIntToBytes, and the three ByteString readers return a non-nil slice on success (a present empty value must not become an absent one under omitempty). Four defects found this way are repaired and guarded. Byte-identity of the binary re-encoding and reproduction of foreign XML need execution and are not claimed.",
    ref="§4 C04"),
  "C18": dict(level="other",
    technique="static analysis: range abstraction of every narrowing conversion in the text readers (bit size of the parse or dominating bounds check) against the writers' total domain; writer-panic preconditions",
